@@ -6131,15 +6131,14 @@ fn eval_built_in_method_call(
             let receiver_s = check_string(receiver_value, receiver_pos, saved_values.clone(), env)?;
             let arg_s = check_string(&arg_values[0], &arg_positions[0], saved_values, env)?;
 
-            let mut value = Value::none();
-            if let Some(needle_byte_offset) = receiver_s.find(arg_s) {
-                for (i, (byte_offset, _)) in receiver_s.char_indices().enumerate() {
-                    if byte_offset == needle_byte_offset {
-                        value = Value::some(Value::new(Value_::Int(i as i64)));
-                        break;
-                    }
+            let value = match receiver_s.find(arg_s) {
+                Some(needle_byte_offset) => {
+                    // Convert the byte offset to a character offset.
+                    let char_offset = receiver_s[..needle_byte_offset].chars().count();
+                    Value::some(Value::new(Value_::Int(char_offset as i64)))
                 }
-            }
+                None => Value::none(),
+            };
 
             if expr_value_is_used {
                 env.push_value(value);
